@@ -36,7 +36,7 @@ CHECKS = {'C16': {'level': 'exploration',
                          'element blocks of owning tensors are allocated by Eigen; out-of-block accesses are observable '
                          'for them only through ASan, for mapped tensors also through canary zones',
                          'integral into the input scalar type is judged only where every prefix sum is representable'],
-         'deadline': {'quick': 300, 'thorough': 1500},
+         'deadline': {'quick': 600, 'thorough': 2400},
          'stages': [{'name': 'rel',
                      'harness': 'c16_tensor',
                      'args': ['--stage', 'rel'],
